@@ -212,7 +212,7 @@ c06_pair!(c06_test_then_empty, PU, T_U_TG, fresh_u_tg, T_C_EMPTY, fresh_c_empty)
 /// conftest C_SCOPED (f <-> g cycle, scopes) then a comment-only text.
 c06_pair!(c06_scoped_then_comment, PC, T_C_SCOPED, fresh_c_scoped, T_C_COMMENT, fresh_c_comment);
 
-/// @harness id=c06_same_length_edit props=ATTEMPT unwind=18 mem=12 cap=1800 gates=seed unwindset=find_inner:3;memchr_seq:400;memchr_bytewise:140;rec~ParseErrorType:3;rec~LexicalErrorType:3;rec~FStringErrorType:3;rec~drop_glue::<std::io::Error:3;sip:48;next_match:40
+/// @harness id=c06_same_length_edit props=ATTEMPT tier=thorough unwind=18 mem=12 cap=1800 gates=seed unwindset=find_inner:3;memchr_seq:400;memchr_bytewise:140;rec~ParseErrorType:3;rec~LexicalErrorType:3;rec~FStringErrorType:3;rec~drop_glue::<std::io::Error:3;sip:48;next_match:40
 /// a test module longer than 256 bytes is re-analysed with content of the SAME length whose first and last 128
 /// bytes are unchanged (a space after a comma became a newline): positions must be those of a fresh index.
 c06_pair!(c06_same_length_edit, PU, T_L_ONE_LINE, fresh_l_one_line, T_L_TWO_LINES, fresh_l_two_lines);
@@ -306,7 +306,7 @@ hist_arm!(c10_scan_then_open_empty_buffer, {
     std::mem::forget(want); std::mem::forget(db);
 });
 
-/// @harness id=c04_mirror_open_then_scan props=C04,C10 unwind=18 mem=10 cap=1500 gates=seed unwindset=find_inner:3;memchr_seq:400;rec~ParseErrorType:3;rec~LexicalErrorType:3;rec~FStringErrorType:3;rec~drop_glue::<std::io::Error:3;memchr_bytewise:64;sip:48;next_match:40
+/// @harness id=c04_mirror_open_then_scan props=C04,C10 tier=quick unwind=18 mem=10 cap=1500 gates=seed unwindset=find_inner:3;memchr_seq:400;rec~ParseErrorType:3;rec~LexicalErrorType:3;rec~FStringErrorType:3;rec~drop_glue::<std::io::Error:3;memchr_bytewise:64;sip:48;next_match:40
 /// the test module is open (U_TG, seeded: two usages) and then reached by the scan (analyze_file_fresh, empty disk
 /// content): the reverse index must still mirror `usages` exactly (no stale or duplicated entry).
 hist_arm!(c04_mirror_open_then_scan, {
@@ -330,7 +330,9 @@ hist_arm!(c04_mirror_open_then_scan, {
 });
 
 // ------------------------------------------------------------------------------------------------ C07
-fn lines_of(v: &[FixtureDefinition]) -> Vec<(String, usize)> { v.iter().map(|d| (d.name.clone(), d.line)).collect() }
+/// (name length, definition line) per entry — enough to tell the table's definitions apart; comparing cloned name
+/// Strings made the propositional encoding explode (12 GB), comparing scalars does not
+fn lines_of(v: &[FixtureDefinition]) -> Vec<(usize, usize)> { v.iter().map(|d| (d.name.len(), d.line)).collect() }
 fn clear_caches(db: &FixtureDatabase) {
     db.available_fixtures_cache.clear();
     db.cycle_cache.clear();
@@ -339,32 +341,35 @@ fn clear_caches(db: &FixtureDatabase) {
     db.ast_cache.clear();
 }
 /// conftest C_F in the index (seeded); WARM the per-file view of U; then the conftest is re-analysed with $t;
-/// the warm answer must equal the answer after dropping every cache (cold).
+/// the warm answer must equal the answer of an identically built twin index that was never queried before (cold).
 macro_rules! c07_warm {
     ($id:ident, $t:ident, $kf:expr) => {
         hist_arm!($id, {
-            let db = FixtureDatabase::new();
+            // twin databases driven by the same history; only the warm twin is queried before the edit
+            let warm_db = FixtureDatabase::new();
             let first = fresh_c_f(PC);
-            seed_file_state(&db, PC, T_C_F, &first);
-            std::mem::forget(first);
-            let warm0 = db.get_available_fixtures(Path::new(PU));
+            seed_file_state(&warm_db, PC, T_C_F, &first);
+            let warm0 = warm_db.get_available_fixtures(Path::new(PU));
             note!("warm view {:?}; then {}", lines_of(&warm0), stringify!($t));
-            db.analyze_file(PathBuf::from(PC), $t);
-            let warm = lines_of(&db.get_available_fixtures(Path::new(PU)));
-            clear_caches(&db);
-            let cold = lines_of(&db.get_available_fixtures(Path::new(PU)));
+            warm_db.analyze_file(PathBuf::from(PC), $t);
+            let warm = lines_of(&warm_db.get_available_fixtures(Path::new(PU)));
+            let cold_db = FixtureDatabase::new();
+            seed_file_state(&cold_db, PC, T_C_F, &first);
+            cold_db.analyze_file(PathBuf::from(PC), $t);
+            let cold = lines_of(&cold_db.get_available_fixtures(Path::new(PU)));
             note!("warm={:?} cold={:?}", warm, cold);
+            let same = warm.len() == cold.len() && warm.iter().zip(cold.iter()).all(|(a, b)| a.1 == b.1 && a.0 == b.0);
             if $kf && crate::kf::C07_NO_VERSION_BUMP_ON_REMOVAL {
-                check!("KF:c07.available.warm_is_cold", warm == cold);
+                check!("KF:c07.available.warm_is_cold", same);
             } else {
-                check!("c07.available.warm_is_cold", warm == cold);
+                check!("c07.available.warm_is_cold", same);
             }
             reach!("c07.available.end");
-            std::mem::forget(warm0); std::mem::forget(warm); std::mem::forget(cold); std::mem::forget(db);
+            std::mem::forget(first); std::mem::forget(warm0); std::mem::forget(warm); std::mem::forget(cold);
+            std::mem::forget(warm_db); std::mem::forget(cold_db);
         });
     };
 }
-
 /// @harness id=c07_warm_then_remove props=C07 tier=quick unwind=18 mem=12 cap=2400 gates=seed unwindset=find_inner:3;memchr_seq:400;rec~ParseErrorType:3;rec~LexicalErrorType:3;rec~FStringErrorType:3;rec~drop_glue::<std::io::Error:3;memchr_bytewise:64;sip:48;next_match:40
 /// warm per-file view, then the edit only REMOVES definitions (C_EMPTY): warm == cold.
 c07_warm!(c07_warm_then_remove, T_C_EMPTY, true);
